@@ -59,7 +59,8 @@ def build_model(spec, route="ctor", cls=None, style=None, initialize=True):
             if False else _icd(cls, spec, rx, rl, params, icd, initialize)
     if route == "incremental":
         m = cls(species=list(spec["species"]), initialize_model=False)
-        for t in rx:
+        for i_, t in enumerate(rx):
+            _poison(m, spec, i_)
             if len(t) == 4:
                 m.create_reaction(t[0], t[1], t[2], t[3])
             else:
@@ -77,6 +78,34 @@ def build_model(spec, route="ctor", cls=None, style=None, initialize=True):
     raise ValueError(route)
 
 
+class PoisonAccepted(Exception):
+    pass
+
+
+def _poison(m, spec, i):
+    """spec["poison"] = [[position, kind], ...]: before reaction `position` is added, a create_reaction call that bioscrape
+    refuses (it names an undeclared species inside the rate law) is attempted and the exception swallowed, as an
+    interactive user would; the reactions added afterwards must be unaffected."""
+    for pos, kind in spec.get("poison", []):
+        if pos != i:
+            continue
+        sp = list(spec["species"])
+        a, b = sp[0], sp[-1]
+        try:
+            if kind == "hill_s1":
+                m.create_reaction([a, a], [b], "hillpositive", {"k": 1.0, "K": 2.0, "n": 2, "s1": "zz_undeclared"})
+            elif kind == "prophill_d":
+                m.create_reaction([b], [a, a, a], "proportionalhillnegative", {"k": 1.0, "K": 2.0, "n": 2, "s1": a, "d": "zz_undeclared"})
+            elif kind == "ma_species":
+                m.create_reaction([a], [b, b], "massaction", {"k": 1.0, "species": "zz_undeclared*" + a})
+            else:
+                m.create_reaction([a], [b], "hillnegative", {"k": 1.0, "K": 2.0, "n": 2, "s1": "zz_undeclared"},
+                                  delay_type="fixed", delay_reactants=[b], delay_products=[a, a], delay_param_dict={"delay": 1.0})
+        except Exception:
+            continue
+        raise PoisonAccepted(kind)
+
+
 def _icd(cls, spec, rx, rl, params, icd, initialize):
     # species are declared through the initial condition dictionary only; since the constructor adds
     # reactions before the dictionary, the species order is then fixed by the reactions first.
@@ -84,7 +113,8 @@ def _icd(cls, spec, rx, rl, params, icd, initialize):
     for s in icd:
         m._add_species(s)
     m.set_species(icd)
-    for t in rx:
+    for i_, t in enumerate(rx):
+        _poison(m, spec, i_)
         if len(t) == 4:
             m.create_reaction(t[0], t[1], t[2], t[3])
         else:
